@@ -20,7 +20,8 @@ import (
 	"time"
 )
 
-const VerifDir = "/verif"
+// VerifDir is where evidence, replays and known_findings.txt live (the directory holding bin/check).
+var VerifDir = Getenv("VERIF_DIR", "/verif")
 
 type batch struct {
 	idx   int
